@@ -238,11 +238,11 @@ def map(
         zmax = zmin + dz.magnitude
         # Limit selection further by using distance from center
         radial_distance = (
-            xyz[indices_close_to_plane]
+            xyz[indices_close_to_plane].norm
             - 0.5 * cell_size[indices_close_to_plane] * diagonal
         )
         radial_selection = (
-            np.abs(radial_distance.norm.values)
+            radial_distance.values
             <= max(dx.magnitude, dy.magnitude, dz.magnitude) * 0.6 * diagonal
         )
         indices_close_to_plane = indices_close_to_plane[radial_selection]
